@@ -132,3 +132,30 @@ Definition scan_string (root : expr) (keeptabs : bool) (input : str) (maxm : opt
   scan_loop (length s + 2) root s always_skip overlap maxm 0 0 [].
 
 End Entry.
+
+(* ---- the derived entry points, as the documented functions of parse_string / scan_string ---- *)
+(* matches(s) / expr == s : parse_string(s, parse_all=True) succeeded; None = something other than a ParseBaseException escaped *)
+Definition matches_of (r : presult) : option bool :=
+  match r with
+  | POk _ => Some true
+  | PErr x => if is_pbe (xk x) then Some false else None
+  | PDiv => None
+  end.
+
+(* search_string : the tokens of scan_string(always_skip_whitespace=False) *)
+Definition search_tokens (ms : list (pres * nat * nat)) : list pres := map (fun m => fst (fst m)) ms.
+
+(* split : `instring[last:s]` for every match, then `instring[last:]` — sliced from the string handed to split() *)
+Fixpoint split_pieces (orig : str) (ms : list (pres * nat * nat)) (last : nat) : list str :=
+  match ms with
+  | [] => [skipn last orig]
+  | (_, st, en) :: rest => slice_ orig last st :: split_pieces orig rest en
+  end.
+
+(* pieces interleaved with the text of the matched separators *)
+Fixpoint rejoin (parsed : str) (pieces : list str) (ms : list (pres * nat * nat)) : str :=
+  match pieces, ms with
+  | p :: ps, (_, st, en) :: rest => p ++ slice_ parsed st en ++ rejoin parsed ps rest
+  | p :: _, [] => p
+  | [], _ => []
+  end.
